@@ -521,7 +521,11 @@ func permute(g *Gen, s *BucketSpec) *BucketSpec {
 // collidingFamily returns bucket sets built to share the bucket cache's
 // identity (a commutative sum of the elements).
 func collidingFamily(g *Gen) []*BucketSpec {
-	switch g.Intn(5) {
+	switch g.Intn(7) {
+	case 5: // one set continues the other with bounds whose bit patterns add up to nothing (bits(0) == 0)
+		return []*BucketSpec{{Bits: []uint64{f64bits(-10), f64bits(-5), f64bits(0)}}, {Bits: []uint64{f64bits(-10), f64bits(-5)}}, {Bits: []uint64{f64bits(-10), f64bits(-5), f64bits(0)}}}
+	case 6: // the same with durations: -10ms + 10ms
+		return []*BucketSpec{{Dur: true, Durs: []int64{-1e9, -10e6, 10e6}}, {Dur: true, Durs: []int64{-1e9}}, {Dur: true, Durs: []int64{-10e6, 10e6, -1e9}}}
 	case 0: // permutations of one set
 		base := &BucketSpec{Bits: []uint64{f64bits(1), f64bits(5), f64bits(2), f64bits(9)}}
 		return []*BucketSpec{base, permute(g, base), permute(g, base)}
